@@ -1,6 +1,7 @@
 import MithrilModel.ChainClient
 import MithrilModel.ChainSession
 import MithrilModel.ChainComplete
+import MithrilModel.ChainLive
 /-!
 # C03 — Certificate chain verification accepts only chains anchored in the genesis key
 
@@ -79,7 +80,11 @@ theorem C03_forward_link_counterexample_prefix :
 
 /-- **client soundness** (two loops + verifier cache), under the cache invariant (every cached pair
 stems from a validated certificate whose content hashes to the key) and hash binding of the abstract
-records (standing for collision-freeness of SHA-256) -/
+records (standing for collision-freeness of SHA-256)
+
+**SUPERSEDED — vacuous as stated**: `HashBinding` quantifies over ALL abstract records and is refutable
+(`C03_hash_binding_unsatisfiable`), so this statement holds for no reason of its own. Its non-vacuous form, with binding
+among the certificates of a world `U` (`BindingOn U`), is `C03_client_sound_on` below; this one is kept only so that nothing that referred to it breaks, and is no longer listed as an obligation. -/
 theorem C03_client_sound (retr : Nat → Option Cert) (cache : Nat → Option Nat) (hc : CacheInv cache)
     (hb : HashBinding) (fuel : Nat) (c : Cert) (h : clientVerify retr cache true fuel c = .ok ()) :
     Valid LinkSpec c := client_sound retr cache hc hb fuel c h
@@ -95,13 +100,21 @@ theorem C03_cache_counterexample_prefix :
 the provider free to answer differently in every call, the cache carried from call to call (extended by a
 successful call, reset by a failed one) — starting from a cache that satisfies the invariant (e.g. empty),
 EVERY accepted certificate of EVERY call is validly chained to a genesis certificate. The cache invariant
-is no longer a hypothesis about an arbitrary cache: it is established by the code itself. -/
+is no longer a hypothesis about an arbitrary cache: it is established by the code itself.
+
+**SUPERSEDED — vacuous as stated**: `HashBinding` quantifies over ALL abstract records and is refutable
+(`C03_hash_binding_unsatisfiable`), so this statement holds for no reason of its own. Its non-vacuous form, with binding
+among the certificates of a world `U` (`BindingOn U`), is `C03_client_sessions_sound_on` / `C03_live_client_sessions_sound` below; this one is kept only so that nothing that referred to it breaks, and is no longer listed as an obligation. -/
 theorem C03_client_sessions_sound (hb : HashBinding) (calls : List ((Nat → Option Cert) × Nat × Cert))
     (cache : Nat → Option Nat) (hc : CacheInv cache) (i : Nat) (hi : i < calls.length)
     (h : (session true cache calls).1[i]? = some (.ok ())) : Valid LinkSpec (calls[i]).2.2 :=
   session_sound hb calls cache hc i hi h
 
-/-- one call keeps the cache invariant (whatever the provider answers, whether it succeeds or fails) -/
+/-- one call keeps the cache invariant (whatever the provider answers, whether it succeeds or fails)
+
+**SUPERSEDED — vacuous as stated**: `HashBinding` quantifies over ALL abstract records and is refutable
+(`C03_hash_binding_unsatisfiable`), so this statement holds for no reason of its own. Its non-vacuous form, with binding
+among the certificates of a world `U` (`BindingOn U`), is `Chain.run_inv_on` below; this one is kept only so that nothing that referred to it breaks, and is no longer listed as an obligation. -/
 theorem C03_client_run_keeps_cache_invariant (retr : Nat → Option Cert) (cache : Nat → Option Nat)
     (hc : CacheInv cache) (hb : HashBinding) (fuel : Nat) (c : Cert) :
     CacheInv (run true retr cache fuel c).2 := (run_inv retr cache hc hb fuel c).1
@@ -127,5 +140,152 @@ def C03_complete_of_locally_good := @verifyChain_of_locally_good
 
 /-- non-vacuity: the two-certificate honest chain of the examples is accepted -/
 example : verifyChain retr0 5 later = .ok () := rfl
+
+/-! ## cycles, and the verifier cache as the client threads it through one call (`MithrilModel/ChainLive.lean`) -/
+
+/-- **C03_acyclic (T2).** `walk retr fuel c` lists the certificates `verify_certificate_chain` calls `verify_certificate`
+on. If it comes to the same hash twice (certificates `a`, `b` at positions `i < j`), then either the verification is not
+accepted, or `a`, `b` are returned as an explicit collision of the content hash (`a ≠ b`, same hash, both contents hash to
+it). The binding hypothesis is not assumed: its failure is the witness. -/
+theorem C03_acyclic (retr : Nat → Option Cert) (fuel : Nat) (c : Cert) (i j : Nat) (hij : i < j) (a b : Cert)
+    (hi : (walk retr fuel c)[i]? = some a) (hj : (walk retr fuel c)[j]? = some b) (hh : a.hash = b.hash) :
+    verifyChain retr fuel c ≠ .ok () ∨ Collision a b := acyclic retr fuel c i j hij a b hi hj hh
+
+/-- non-vacuity, first disjunct: the two-certificate cycle `1 → 2 → 1` comes back to `cycA` and is not accepted -/
+example : (walk retrCyc 3 cycA)[0]? = some cycA ∧ (walk retrCyc 3 cycA)[2]? = some cycA ∧
+    verifyChain retrCyc 3 cycA = .error .fuel := ⟨by decide, by decide, rfl⟩
+
+/-- non-vacuity, second disjunct: a provider that serves, for hash 1, a genesis certificate different from the start
+certificate (hash 1 as well): accepted, and the two are the collision -/
+example :
+    let c1 : Cert := { cycA with hash := 1, prevHash := 2 }
+    let c2 : Cert := { cycA with hash := 2, prevHash := 1 }
+    let g : Cert := { gen with hash := 1, epoch := 3 }
+    let retr : Nat → Option Cert := fun h => if h = 2 then some c2 else if h = 1 then some g else none
+    verifyChain retr 3 c1 = .ok () ∧ (walk retr 3 c1)[0]? = some c1 ∧ (walk retr 3 c1)[2]? = some g ∧
+      c1.hash = g.hash ∧ c1 ≠ g := ⟨rfl, by decide, by decide, rfl, by decide⟩
+
+/-- if no two certificates of the walk are such a collision, the hashes of an accepted walk are pairwise different -/
+theorem C03_acyclic_nodup (retr : Nat → Option Cert) (fuel : Nat) (c : Cert)
+    (hb : ∀ a ∈ walk retr fuel c, ∀ b ∈ walk retr fuel c, ¬ Collision a b)
+    (hok : verifyChain retr fuel c = .ok ()) : ((walk retr fuel c).map (·.hash)).Nodup :=
+  accepted_walk_nodup retr fuel c hb hok
+
+/-- non-vacuity: the honest chain of the examples -/
+example : (∀ a ∈ walk retr0 5 later, ∀ b ∈ walk retr0 5 later, ¬ Collision a b) ∧ verifyChain retr0 5 later = .ok () := by
+  refine ⟨?_, rfl⟩
+  intro a ha b hb hcol
+  have hw : walk retr0 5 later = [later, gen] := by decide
+  rw [hw] at ha hb
+  simp only [List.mem_cons, List.not_mem_nil, or_false] at ha hb
+  have hne := hcol.ne
+  have hh := hcol.hash
+  rcases ha with rfl | rfl <;> rcases hb with rfl | rfl <;> first | exact hne rfl | (revert hh; decide)
+
+/-- the self-loop guard: a standard certificate whose `previous_hash` is its own hash is rejected at once -/
+theorem C03_self_loop_guard (retr : Nat → Option Cert) (c : Cert) (hg : c.isGenesis = false) (hl : c.hash = c.prevHash) :
+    verifyCertificate retr c = .error .loop ∨ verifyCertificate retr c = .error .notFound :=
+  selfLoop_rejected retr c hg hl
+
+/-- a longer cycle of certificates that all pass (a cycle of the content hash, no collision): `fuel` for every fuel — the
+real loop, which has no bound and keeps no set of visited hashes, does not terminate -/
+theorem C03_cycle_diverges (retr : Nat → Option Cert) (f : Nat) (c : Cert) (i j : Nat) (hij : i < j) (x : Cert)
+    (hi : (walk retr f c)[i]? = some x) (hj : (walk retr f c)[j]? = some x) :
+    ∀ F, verifyChain retr F c = .error .fuel := cycle_diverges retr f c i j hij x hi hj
+
+example : ∀ F, verifyChain retrCyc F cycA = .error .fuel := cycle_example
+
+/-- **C03_live_cache_agrees.** `clientVerifyLive` threads the cache through the call as `verify.rs` does (record right
+after each successful `verify_certificate` of a non-genesis certificate, before the next look-up). On every input whose
+walk does not come to the same hash twice it returns the verdict of `clientVerify` (error class included) and leaves the
+cache `run` computes. -/
+theorem C03_live_cache_agrees (retr : Nat → Option Cert) (cache : Nat → Option Nat) (fuel : Nat) (c : Cert)
+    (hn : (visited retr cache fuel c).Nodup) :
+    (clientVerifyLive retr cache fuel c).1 = clientVerify retr cache true fuel c ∧
+    (∀ k, (clientVerifyLive retr cache fuel c).2 k = extend cache (runWrites retr cache fuel c) k) ∧
+    (runLive retr cache fuel c).1 = (run true retr cache fuel c).1 ∧
+    ∀ k, (runLive retr cache fuel c).2 k = (run true retr cache fuel c).2 k :=
+  ⟨(live_agrees retr cache fuel c hn).1, (live_agrees retr cache fuel c hn).2,
+   (runLive_agrees retr cache fuel c hn).1, (runLive_agrees retr cache fuel c hn).2⟩
+
+/-- non-vacuity: an honest three-epoch chain on a cache warmed by an earlier call: no hash twice, accepted through the cache -/
+example :
+    let third : Cert := { later with hash := 300, prevHash := 200, epoch := 3 }
+    let warm := (run true retr0 (fun _ => none) 5 later).2
+    (visited retr0 warm 5 third).Nodup ∧ visited retr0 warm 5 third = [300, 200, 100] ∧
+      code (clientVerifyLive retr0 warm 5 third).1 = none := ⟨by decide, by decide, by decide⟩
+
+/-- **for every retriever and every initial cache** (cyclic walks included): when the live client accepts, `clientVerify`
+accepts, and the cache left is the initial one plus the records of `runWrites`. So everything proved about accepted runs
+of `clientVerify` holds for the client as it really threads its cache. -/
+theorem C03_live_accept_implies_model_accept (retr : Nat → Option Cert) (cache : Nat → Option Nat) (fuel : Nat) (c : Cert)
+    (h : (clientVerifyLive retr cache fuel c).1 = .ok ()) :
+    clientVerify retr cache true fuel c = .ok () ∧
+    (clientVerifyLive retr cache fuel c).2 = storeAll cache (runWrites retr cache fuel c) :=
+  live_accept_static retr cache fuel c h
+
+example : (clientVerifyLive retr0 (fun _ => none) 5 later).1 = .ok () := rfl
+
+/-- **the binding hypothesis of the theorems above (`HashBinding`, over ALL abstract records) is refutable**: the statements
+`C03_client_sound`, `C03_client_sessions_sound`, `C03_client_run_keeps_cache_invariant` are vacuously true. The `_on`
+theorems below are their non-vacuous form: binding among the certificates of a world `U` (everything the provider serves,
+every start certificate, every certificate a cache entry was learnt from). -/
+theorem C03_hash_binding_unsatisfiable : ¬ HashBinding := hashBinding_false
+
+/-- client soundness, one call, binding relative to `U` -/
+theorem C03_client_sound_on (U : Cert → Prop) (retr : Nat → Option Cert) (cache : Nat → Option Nat)
+    (hs : Serves U retr) (hc : CacheInvOn U cache) (hb : BindingOn U) (fuel : Nat) (c : Cert)
+    (h : clientVerify retr cache true fuel c = .ok ()) : Valid LinkSpec c :=
+  client_sound_on U retr cache hs hc hb fuel c h
+
+/-- client soundness over whole sessions (model `run`/`session`: cache as at the start of each call), binding relative to `U` -/
+theorem C03_client_sessions_sound_on (U : Cert → Prop) (hb : BindingOn U)
+    (calls : List ((Nat → Option Cert) × Nat × Cert)) (cache : Nat → Option Nat) (hc : CacheInvOn U cache)
+    (hall : ∀ call ∈ calls, Serves U call.1 ∧ U call.2.2) (i : Nat) (hi : i < calls.length)
+    (h : (session true cache calls).1[i]? = some (.ok ())) : Valid LinkSpec (calls[i]).2.2 :=
+  session_sound_on U hb calls cache hc hall i hi h
+
+/-- client soundness over whole (sequential) sessions, for the cache as the Rust threads it, binding relative to `U` -/
+theorem C03_live_client_sessions_sound (U : Cert → Prop) (hb : BindingOn U)
+    (calls : List ((Nat → Option Cert) × Nat × Cert)) (cache : Nat → Option Nat) (hc : CacheInvOn U cache)
+    (hall : ∀ call ∈ calls, Serves U call.1 ∧ U call.2.2) (i : Nat) (hi : i < calls.length)
+    (h : (sessionLive cache calls).1[i]? = some (.ok ())) : Valid LinkSpec (calls[i]).2.2 :=
+  sessionLive_sound U hb calls cache hc hall i hi h
+
+/-- non-vacuity of the three: the world of the three honest certificates is binding, the provider serves only them, the
+empty cache satisfies the invariant, and in a session of two calls the second is accepted through the record the first
+one made (both models) -/
+example :
+    BindingOn U3 ∧ CacheInvOn U3 (fun _ => none) ∧
+    (∀ call ∈ [(retr0, 5, later), (retr0, 5, third)], Serves U3 call.1 ∧ U3 call.2.2) ∧
+    (session true (fun _ => none) [(retr0, 5, later), (retr0, 5, third)]).1.map code = [none, none] ∧
+    (sessionLive (fun _ => none) [(retr0, 5, later), (retr0, 5, third)]).1.map code = [none, none] := by
+  refine ⟨U3_binding, cacheInvOn_empty U3, ?_, by decide, by decide⟩
+  intro call hc
+  simp only [List.mem_cons, List.not_mem_nil, or_false] at hc
+  rcases hc with rfl | rfl
+  · exact ⟨U3_serves, Or.inr (Or.inl rfl)⟩
+  · exact ⟨U3_serves, Or.inr (Or.inr rfl)⟩
+
+/-- **where the two differ**: a walk that comes back to a hash. `clientVerify` accepts (the certificate IS validly chained,
+the initial cache satisfies `CacheInv`); the live client answers `fuel` for every fuel: the real client spins between two
+cache entries without a request to the aggregator. Needs an initial cache entry that points from a certificate to its
+own descendant, and a provider that serves another certificate than the one asked for. -/
+theorem C03_live_differs_on_revisiting_walk :
+    CacheInv wCache ∧ Valid LinkSpec wC ∧ clientVerify wRetr wCache true 4 wC = .ok () ∧
+    (∀ fuel, (clientVerifyLive wRetr wCache fuel wC).1 = .error .fuel) ∧
+    visited wRetr wCache 4 wC = [900, 500, 900] := live_differs
+
+/-- OBSERVATION (outside the sequential sessions the theorems above are about; confirmed on the real client by the scratch
+replay `/verif/work/L4/replay`, experiment B): the records of a validation are visible in the shared cache while it is still
+in progress. A provider that holds back one answer of call 1 (which is going to fail, and resets the cache only then) lets a
+call 2 started in the meantime be accepted through the record call 1 has just made — the poisoning of
+`C03_cache_poisoning_counterexample_before_repair`, moved from "after a failed call" to "during a call that will fail". -/
+theorem C03_concurrent_calls_note :
+    (phase1Live retr1 advF.epoch 1 (fun _ => none) advF).2 900 = some 500 ∧
+    (clientVerifyLive retr2 (store (fun _ => none) 900 500) 10 advF2).1 = .ok () ∧
+    (clientVerifyLive retr1 (fun _ => none) 10 advF).1 = .error .hash ∧
+    (sessionLive (fun _ => none) [(retr1, 10, advF), (retr2, 10, advF2)]).1.map code = [some .hash, some .avk] :=
+  concurrent_window
 
 end C03
